@@ -177,7 +177,7 @@ def cache_component_js_vars(comp_cls: Type["Component"], js_vars: Dict) -> Optio
 
 
 def wrap_component_js(comp_cls: Type["Component"], content: str) -> str:
-    if "</script" in content:
+    if "</script" in content.lower():
         raise RuntimeError(
             f"Content of `Component.js` for component '{comp_cls.__name__}' contains '</script>' end tag. "
             "This is not allowed, as it would break the HTML."
